@@ -241,7 +241,10 @@ def checks(tier):
                             continue
                         signals = ["-"] if trainer in ("stdp", "triplet") else (["scalar+", "scalar-", "tensor"])
                         for signal in signals:
-                            for B, red in (((1, "sum"), (2, "sum"), (2, "mean")) if th else ((2, "mean") if trainer in ("stdp", "triplet") else (2, "sum"),)):
+                            brs = ((1, "sum"), (2, "sum"), (2, "mean")) if th else ((2, "mean") if trainer in ("stdp", "triplet") else (2, "sum"),)
+                            if not th and signal == "tensor" and cell == "dense" and dly == "none":
+                                brs = brs + ((1, "sum"),)          # a batch of one with a per-sample signal of shape [1]
+                            for B, red in brs:
                                 for dt in ((1.0, 1.3) if th else (1.3,)):
                                     c = dict(trainer=trainer, trace=mode, signs=signs, cell=cell, B=B, reduction=red, dt=dt, T=(Tn if signal != "tensor" or th else 3), signal=signal)
                                     if dly != "none":
